@@ -103,6 +103,17 @@ def build_harness_asan(features=()):
     return os.path.join(tdir, "x86_64-unknown-linux-gnu", "rel", "vh-run")
 
 
+def build_fuzz():
+    """cargo-fuzz build of the libFuzzer target (ASan + coverage instrumentation, nightly)."""
+    env = dict(ENV)
+    env["RUSTFLAGS"] = "--cfg gecs_verif"
+    fdir = os.path.join(HARNESS, "fuzz")
+    p = subprocess.run(["cargo", "+nightly", "fuzz", "build", "hist"], cwd=fdir, env=env, stdout=subprocess.PIPE, stderr=subprocess.STDOUT, text=True)
+    if p.returncode != 0:
+        raise Inconclusive("building the fuzz target failed:\n%s" % p.stdout[-3000:])
+    return os.path.join(fdir, "target", "x86_64-unknown-linux-gnu", "release", "hist")
+
+
 # ----------------------------------------------------------------------------------------------
 # running things
 # ----------------------------------------------------------------------------------------------
